@@ -32,6 +32,8 @@ def c01(run):
     run.model("MC_map_w2q.cfg", "MC_map.tla", workers=8, timeout=300)
     # start states at full load / tombstone saturation: the in-place rehash runs with live elements (and panicking hashers)
     run.model("MC_map_w2inplaceq.cfg", "MC_map.tla", workers=8, timeout=600)
+    # tables smaller than a group (4 buckets at W = 8): mirrored tail, fix_insert_slot
+    run.model("MC_map_w8small.cfg", "MC_map.tla", workers=8, timeout=600)
     if not quick:
         run.model("MC_map_w2inplace.cfg", "MC_map.tla", workers=12, timeout=1500)
         run.model("MC_map_w2t.cfg", "MC_map.tla", workers=12, timeout=1500)
